@@ -27,9 +27,13 @@ ReplyChunks(b) == CASE b \in OkLike \cup BadStrings \cup {"badbool", "badlevel",
                     [] OTHER -> 0
 
 \* "err_256": exactly 256 errors in one file (an exit status is one byte wide)
-ErrClasses == {"err_io", "err_syntax", "err_attr", "err_type", "err_cycle", "err_redef", "err_rule", "err_256"}
+\* err_io: a listed source does not exist (defect in "file" 1) / a reference directory does not exist (2);
+\* err_io_ext: a source without the .slice extension; err_io_dir: a directory given as a source
+ErrClasses == {"err_io", "err_io_ext", "err_io_dir", "err_syntax", "err_attr", "err_type", "err_cycle", "err_redef", "err_rule", "err_256"}
+\* one class per lint: Deprecated, MalformedDocComment, BrokenDocLink, IncorrectDocComment (each a warning, never an error)
+WarnClasses == {"warn", "warn_malformed", "warn_link", "warn_incorrect"}
 \* "big": a clean program whose request is larger than a pipe buffer (4000 structs, about 250 KiB)
-Classes    == {"clean", "warn", "big"} \cup ErrClasses
+Classes    == {"clean", "big"} \cup WarnClasses \cup ErrClasses
 \* the file a generator replies with may exist already: identical (left untouched), different, or sharing a prefix with the
 \* new content - longer (the new content followed by more) or shorter (a proper prefix of it); only "identical" may be skipped
 OutDirs    == {"absent", "given", "unusable", "identical", "different", "longer", "shorter"}
